@@ -1,14 +1,20 @@
 import Driver.Engine
 import Driver.Probe
+import Driver.Obj
 import Driver.Rows
 import Driver.HashMeta
 import Driver.BTree
 import Driver.Arr
 import Driver.Pool
+import Driver.PoolAlloc
 import Driver.Columns
 import Driver.HashTable
 import Driver.Sort
 import Driver.Seg
+import Driver.Val
+import Driver.Table
+import Driver.MMap
+import Driver.StdWrap
 /-!
   momo_model: reads operation lines on stdin, prints one output line per operation.
   First line: `model <name> key=value …` selects the model. Lines starting with `#` are echoed.
@@ -16,16 +22,22 @@ import Driver.Seg
 open Driver
 
 def engines : List (String × Engine) := [
+  ("stdwrap", Driver.StdWrap.engine),
   ("probe", Driver.Probe.engine),
+  ("obj", Driver.Obj.engine),
   ("rows", Driver.Rows.engine),
   ("hashmeta", Driver.HashMeta.engine),
   ("btree", Driver.BTree.engine),
   ("arr", Driver.Arr.engine),
   ("pool", Driver.Pool.engine),
+  ("poolalloc", Driver.PoolAlloc.engine),
   ("columns", Driver.Columns.engine),
   ("hashtable", Driver.HashTable.engine),
   ("sort", Driver.Sort.engine),
-  ("seg", Driver.Seg.engine)
+  ("seg", Driver.Seg.engine),
+  ("val", Driver.Val.engine),
+  ("table", Driver.Table.engine),
+  ("mmap", Driver.MMap.engine)
 ]
 
 def tokens (line : String) : List String :=
